@@ -14,7 +14,7 @@ CASE_TIMEOUT = 400
 NPROC = 16
 RULE = ('each case = one homogeneous sphere: log-uniform R 1e5..1e8 m, rho 500..1.5e4, |mu| 1e6..1e12 Pa with loss angle 0..60 deg, l 2..10, '
         'integrator in {RK23,RK45,DOP853}, family in {Takeuchi,Kamata}, static/dynamic, incompressible set or compressible set with '
-        'K = 1e4..1e8 max(|mu|, rho g R), both nondimensionalize values, the tidal numbers requested alone or in any slot next to loading / free solutions, rtol in {1e-6,1e-8,1e-10}, 25..400 slices; solved at rtol, rtol/100 and '
+        'K = 1e4..1e8 max(|mu|, rho g R), both nondimensionalize values, the tidal numbers requested by default (solve_for=None), alone or in any slot next to loading / free solutions, rtol in {1e-6,1e-8,1e-10}, 25..400 slices; solved at rtol, rtol/100 and '
         'rtol/100 with another integrator; non-trivial (decisive) = all three solves succeeded and delta_conv <= 1e3 rtol; distinct by input hash')
 ASSUMPTIONS = ['budget |dL| <= 200 rtol + 10 delta_conv + 10 eps_dyn + 20 max(|mu|, rho g R)/K on the O(1) scale of k, h, l (eps_dyn = w^2/(pi G rho); the closed form is quasi-static and the true dynamic correction reaches 1.5 / 2.4 / 7.1 eps_dyn for k / h / l of a fluid-like sphere, observed identically with the Kamata incompressible and the Takeuchi compressible family)',
                'unsupported combinations raising NotImplementedError are legitimate outcomes (not decisive)', 'max_num_steps = 2e5; RK23 is asked for rtol 1e-5/1e-6, RK45 for 1e-6..1e-8, DOP853 for 1e-6..1e-10; the cross-integrator probe uses DOP853 (RK45 for DOP853 cases)']
@@ -61,8 +61,8 @@ def eval_case(c):
     other = 'DOP853' if c['method'] != 'DOP853' else 'RK45'
 
     # the tidal numbers are requested alone or next to other solution types (their slot must not matter)
-    sf = [('tidal',), ('tidal',), ('tidal', 'loading'), ('loading', 'tidal'), ('free', 'loading', 'tidal')][c.get('sub', 0) % 5]
-    slot = sf.index('tidal')
+    sf = [None, ('tidal',), ('tidal', 'loading'), ('loading', 'tidal'), ('free', 'loading', 'tidal'), None][c.get('sub', 0) % 6]      # None = the solver's default
+    slot = 0 if sf is None else sf.index('tidal')
 
     def run(rt, meth):
         cnt['solves'] += 1
@@ -84,7 +84,7 @@ def eval_case(c):
     eps_dyn = 0.0 if static else c['eps_dyn']
     comp = 0.0 if incomp else max(c['mag'], rho * g0 * R) / K
     budget = 200 * c['rtol'] + 10 * dconv + 10 * eps_dyn + 20 * comp    # dynamic correction: up to 7.1 eps_dyn on the Shida number in the fluid limit (same in two families)
-    obs = {'fam': fam, 'l': l, 'solve_for': list(sf), 'method': c['method'], 'rtol': c['rtol'], 'k_solver': complex(L[0]), 'k_closed': complex(ex[0]), 'err': err, 'delta_conv': dconv, 'budget': budget, 'eps_dyn': eps_dyn}
+    obs = {'fam': fam, 'l': l, 'solve_for': None if sf is None else list(sf), 'method': c['method'], 'rtol': c['rtol'], 'k_solver': complex(L[0]), 'k_closed': complex(ex[0]), 'err': err, 'delta_conv': dconv, 'budget': budget, 'eps_dyn': eps_dyn}
     viol = []
     # mechanism classifier for the known degeneracy (needed whether or not the probe flags the case as unconverged)
     degenerate = False
